@@ -1,6 +1,7 @@
 import Proofs.C09.Legacy
 import Proofs.C09.Bip341
 import Proofs.C09.Impl
+import Proofs.C09.Spec
 /-!
 # C09 — signature hashes equal the legacy, BIP143 and BIP341 definitions
 
@@ -11,7 +12,8 @@ Property theorems only (DESIGN §3 C09).  Two layers:
   constants regenerated from btclib's source (`Gen.SigHash.*`); T2 and T4 are about it;
 * the btclib-shaped functions `Btc.Sighash.Impl.*` (`Model/C09/Impl.lean`), tied to `btclib/script/sig_hash.py`
   by the correspondence streams; T1 and T3 are about them.  That the two layers compute the same digest is
-  checked by the driver on every accepted line of every stream (`specdiff`), not yet a theorem.
+  checked by the driver on every accepted line of every stream (`specdiff`); it is a theorem for `segwit_v0`
+  (`segwit_v0_is_bip143_partial`), not yet for `legacy` and `taproot`.
 
 `Collides H a b` is an explicit collision: `a ≠ b ∧ H a = H b`.
 -/
@@ -33,6 +35,23 @@ theorem taproot_precomputed_eq_direct (S : Bytes → Bytes) (tx : Tx) (prevouts 
     Impl.taproot S tx i prevouts ht extFlag annex msgExt (some p) =
       Impl.taproot S tx i prevouts ht extFlag annex msgExt none :=
   Impl.taproot_precomputed hp i ht extFlag annex msgExt
+
+/-- Layer tie (BIP143): whenever the btclib-shaped `segwit_v0` -- direct, or with the `PrecomputedTxData` of this
+    very transaction -- answers with a digest, it is the specification's BIP143 digest with hash256 = S∘S.
+    PARTIAL: proved for the non-negative spelling of the hash type.  Full statement (kept here): the same for
+    every `-2^31 ≤ ht < 2^32`, i.e. also Core's negative `int32_t` spelling, whose four bytes are the two's
+    complement word `Impl.word ht`; missing is the lemma `Py.land (Int.negSucc m) (2^32-1) = 2^32-1-m`, and the
+    negative spellings are covered by the `legacy` / `segwit_v0` correspondence streams and the `gen.SigHash`
+    stream of the translated `_serialized_hash_type`. -/
+theorem segwit_v0_is_bip143_partial (S : Bytes → Bytes) (sc : Bytes) (tx : Tx) (prevouts : List TxOut)
+    (i ht amount : Int) (d : Bytes) (h0 : 0 ≤ ht) :
+    (Impl.segwitV0 S sc tx i ht amount none = .ok d →
+      d = bip143Digest (Impl.hash256 S) sc tx i.toNat (Impl.word ht) amount) ∧
+    (∀ p, Impl.precompute S tx prevouts = .ok p → Impl.segwitV0 S sc tx i ht amount (some p) = .ok d →
+      d = bip143Digest (Impl.hash256 S) sc tx i.toNat (Impl.word ht) amount) := by
+  refine ⟨Impl.segwitV0_eq_spec h0, fun p hp h => ?_⟩
+  rw [Impl.segwitV0_precomputed hp] at h
+  exact Impl.segwitV0_eq_spec h0 h
 
 /-! ## T2 — commitment: equal preimages ⇒ equal committed fields (or an explicit collision) -/
 
